@@ -11,8 +11,10 @@ bookkeeping of MP4Tags.save (Model/Container/Mp4.lean) on a real file.
   mp4 op=region data=<hex>
       -> ok off=<o> old=<n> parents=<offset,offset,…>     (what __save_existing/__save_new would replace)
   mp4 op=save data=<hex> [off=<o> old=<n>] (new=<hex> | after=<hex>)
-      -> ok|err <PyErr> off=<o> old=<n> newlen=<n> data=<hex>
-         the file after splice + __update_parents + __update_offsets.  Without off/old the model's
+      -> ok|err <PyErr> off=<o> old=<n> newlen=<n> covered=<0|1> data=<hex>
+         the file after splice + __update_parents + __update_offsets; covered=1: the hypotheses of
+         Props/C10 `chunk_offsets_follow_partial` hold for this save and every recorded offset is
+         `MediaClear` for windows of n (default 16) bytes.  Without off/old the model's
          own region is used; with `after` (the real file after the real save) the new bytes are
          taken from it: after[off : off + old + (len(after) - len(data))].
 -/
@@ -74,7 +76,8 @@ def mp4Op (a : Args) : String :=
           else a.bytes "new"
         let r := saveAt f atoms R.parents off old new
         let head := match r.1 with | none => "ok" | some e => s!"err {e.name}"
-        s!"{head} off={off} old={old} newlen={new.length} data={hexField r.2}"
+        let cov := covered f atoms R.parents off old ((new.length : Int) - old) (a.nat "n" 16)
+        s!"{head} off={off} old={old} newlen={new.length} covered={if cov then 1 else 0} data={hexField r.2}"
   | _ => "bad-op"
 
 end Driver
